@@ -79,8 +79,25 @@ def _info(b):
     return _INFO[b]
 
 
+FULL2 = ['close_vs_close', 'close_vs_auto_ping', 'close_vs_text']      # bases whose two-pre-emption sweep is complete (thorough)
+
+
+def _full2_size(b):
+    n, nt = _info(b)
+    return n * (n + 40) * (nt + 1) ** 2
+
+
+def _full2_bases():
+    return [i for i, b in enumerate(BASES) if b['name'] in FULL2]
+
+
 def plan(tier):
     q = tier == 'quick'
+    if not q:
+        return [('sweep1', len(BASES) * SLOT1),
+                ('sweep2_full', sum(_full2_size(b) for b in _full2_bases())),
+                ('sweep2', 60000),
+                ('random', 120000)]
     return [('sweep1', len(BASES) * SLOT1),
             ('sweep2', 3000 if q else 150000),
             ('random', 2500 if q else 120000)]
@@ -97,6 +114,27 @@ def make_case(family, i, rng, tier):
         tid = who if who < nt else T.threadsim.CLOCK
         case = copy.deepcopy(BASES[b])
         case['schedule'] = {'kind': 'preempt', 'points': [[step, tid]]}
+        return case
+    if family == 'sweep2_full':
+        for b in _full2_bases():
+            size = _full2_size(b)
+            if i < size:
+                break
+            i -= size
+        n, nt = _info(b)
+        k = nt + 1
+        t2 = i % k
+        i //= k
+        t1 = i % k
+        i //= k
+        s2 = i % (n + 40) + 1
+        s1 = i // (n + 40) + 1
+        if s2 <= s1:
+            return None
+        ids = list(range(nt)) + [T.threadsim.CLOCK]
+        case = copy.deepcopy(BASES[b])
+        case['schedule'] = {'kind': 'preempt',
+                            'points': [[s1, ids[t1]], [s2, ids[t2]]]}
         return case
     if family == 'sweep2':
         b = rng.randrange(len(BASES)) if tier == 'quick' else i % len(BASES)
@@ -241,6 +279,9 @@ def execute(case):
 def evidence_extra(tier, agg):
     return {'schedules': {'sweep1': 'every single pre-emption point of every '
                                     'base (complete)',
+                          'sweep2_full': 'thorough: every pair of pre-emption '
+                                         'points for the bases %s'
+                                         % (FULL2,),
                           'sweep2': 'pairs of pre-emption points (sampled)',
                           'random': 'random-walk and PCT schedulers'},
             'exhaustive_at_bound': {b['name']: _info(i)[0] * (_info(i)[1] + 1)
